@@ -126,10 +126,9 @@ type attempt struct {
 	txLeft int
 	govTxs []util.Uint256
 
-	stopFeed   chan struct{}
-	wgFeed     sync.WaitGroup
-	feedOnce   sync.Once
-	lockHeight uint32
+	stopFeed chan struct{}
+	wgFeed   sync.WaitGroup
+	feedOnce sync.Once
 }
 
 func (a *attempt) stopFeeder() {
@@ -602,15 +601,19 @@ func (a *attempt) randomPhases() {
 }
 
 func TestCheck(t *testing.T) {
-	run := ev.Start("C19", "one case = one seeded network schedule over a cluster variant (N validators, optionally N+2 committee nodes with elections, or a ValidatorsHistory that changes the number of validators 4->7 / 7->4 at an epoch boundary inside the run, StateRootInHeader, extensible pool in front of the service, tiny block limits, MaxTimePerBlock): real consensus services over real ledgers and block queues; fault phases drawn from the seed (loss, duplication, delay/reordering, partitions, targeted loss of view-0 prepare responses so that some validators commit while the others change view, loss of every view-0 proposal so that later primaries take over, up to f validators cut/mute/deaf/late; impaired+lagging <= f outside partitions) alternate with quiet phases in which bounded progress is demanded; transactions are pooled at random subsets of nodes and fetched through RequestTx. Distinct = cluster variant x fault kinds applied x mechanisms reached (view change, recovery, tx fetch, block sync, duplication, reordering); non-trivial = blocks were produced under faults and the offline checker compared the ledgers of all nodes")
+	run := ev.Start("C19", "one case = one seeded network schedule over a cluster variant (N validators, optionally N+2 committee nodes with elections, or a ValidatorsHistory that changes the number of validators 4->7 / 7->4 at an epoch boundary inside the run, StateRootInHeader, extensible pool in front of the service, tiny block limits, MaxTimePerBlock): real consensus services over real ledgers and block queues. Random schedules: fault phases drawn from the seed (loss, duplication, delay/reordering, partitions, targeted loss of view-0 prepare responses so that some validators commit while the others change view, loss of every view-0 proposal so that later primaries take over, up to f validators cut/mute/deaf/late; impaired+lagging <= f outside partitions) alternate with quiet phases in which bounded progress is demanded; transactions are pooled at random subsets of nodes and fetched through RequestTx. Scripted schedules (rec-*, burst-*, epoch-burst-*; the part without the race detector repeats the bursts): commit-lock rounds (F+1 validators commit at view v in {0,1,2,..} after the proposals of the lower views were lost, the others miss the responses / the proposal / everything, so that after the faults stop the height can only be finished through RecoveryRequest and RecoveryMessage, with the full PrepareRequest or its hash only, on both StateRootInHeader settings), backlog bursts (the inbound link of up to f validators stalls for > N blocks, then payloads kept for later and a batch of blocks arrive at once while the other validators are one short of M, what the laggers send is lost and recovery messages are lost), and the same burst for f+1 validators across a shrinking of the validator set 7->4 with the block accepted by the primary alone; after every scripted fault the post-fault bounded-progress verdict applies. Distinct = cluster variant x fault kinds applied x mechanisms reached (view change, recovery, tx fetch, block sync, duplication, reordering); non-trivial = blocks were produced under faults (scripted: the commit lock was observed at the Broadcast boundary / a backlog was delivered in one burst) and the offline checker compared the ledgers of all nodes")
 	defer run.Finish()
 	run.Assume("the simulated network stands for the P2P layer: payloads, blocks and transactions are re-encoded and re-decoded on every hop; inv/getdata/response exchanges are folded into one message that can be lost, duplicated or delayed")
 	run.Assume("validators are honest or silent/late (cut, mute, deaf, delayed); Byzantine payloads are out of scope of the property")
-	run.Assume("the dBFT timers are real (100 ms block time): safety verdicts do not depend on timing; progress verdicts use the 200-interval bound and need three consecutive fresh attempts to fail")
+	run.Assume("the dBFT timers are real (100 ms block time): safety verdicts do not depend on timing; progress verdicts use the 200-interval bound in quiet phases, and after scripted faults 120 intervals without any accepted block during which every validator's timer demonstrably fired >= 5 times (counted at the Broadcast boundary); either needs three consecutive runs of the same schedule to fail at the same point, otherwise the run is inconclusive")
+	run.Assume("an honest validator signs one block per height: two different Commit payloads of one node at one height, or a ChangeView / RecoveryRequest after its Commit at that height (dBFT's commit lock), count as a safety violation although a fork needs f+1 such validators")
 	run.Assume("a fresh ledger with the same protocol settings stands for 'any other node's ledger' when committed copies of a block are replayed after serialization; peers' real ledgers additionally verify every committed witness")
 
 	nSched := ev.Pick(6, 60)
 	par := ev.Pick(3, 4)
+	if os.Getenv("VERIF_PART") == "bursts" {
+		par = ev.Pick(4, 5) // no race detector: lighter
+	}
 	if v := os.Getenv("C19_PAR"); v != "" {
 		fmt.Sscan(v, &par)
 	}
@@ -621,7 +624,7 @@ func TestCheck(t *testing.T) {
 		live = map[string]bool{}
 	)
 	var scheds []schedule
-	for idx := 0; idx < nSched; idx++ {
+	for idx := 0; idx < nSched && os.Getenv("VERIF_PART") != "bursts"; idx++ {
 		scheds = append(scheds, makeSchedule(idx))
 	}
 	// the scripted schedules go first: a stalled one is repeated twice
